@@ -160,6 +160,7 @@ func SmallInt(lo, hi int) *rapid.Generator[spec.Num] {
 // Alphabet chosen for the Unicode risks the code handles.
 var alphabet = []string{
 	"a", "b", "A", "z", "0", "9", " ", "-", "_", ":", "/", ".", ",", "(", "{", "%", "\"", "'", "\t",
+	"\ufffd", // the replacement character itself is an ordinary, valid code point
 	"=", "<", ">", "\u0338", // the three ASCII signs that compose with a following mark (U+0338: = becomes U+2260 ...)
 	"\u0301", "\u0308", "\u0323", "\u0327", // combining acute, diaeresis, dot below, cedilla
 	"\u00e9", "e", "\u00f6", "o", "\u00e7", "c", "\u00c5", "\u212b", "A\u030a", // precomposed, compatibility (angstrom), decomposed
